@@ -95,7 +95,14 @@ func classify(err error) int {
 
 func runReg(c Case, res *lib.Result) (ret string) {
 	defer res.Recover(c)
-	mr := memreg.New("reg.example", memreg.Features{EmptyRange00: c.Empty00, ChunkMin: c.ChunkMin})
+	// the announced minimum is enforced when nothing else is scripted (a resend after a partial store is shorter by design)
+	strict := c.ChunkMin > 0
+	for _, a := range c.Script {
+		if a.K != "accept" {
+			strict = false
+		}
+	}
+	mr := memreg.New("reg.example", memreg.Features{EmptyRange00: c.Empty00, ChunkMin: c.ChunkMin, ChunkMinStrict: strict})
 	rt := &memrt.RT{}
 	si := 0
 	resend := false // the next PATCH is reghttp's re-send of a dropped one: the registry handles it untouched
@@ -400,8 +407,11 @@ func genCase(r *lib.Rand) Case {
 				c.Script = append(c.Script, Act{K: "early201"})
 			}
 		}
-		if r.Chance(8) {
+		if r.Chance(12) {
 			c.ChunkMin = cp + 1 + r.Intn(3)
+			if r.Chance(60) { // nothing else scripted: the registry enforces the minimum it announced
+				c.Script = nil
+			}
 		}
 		if r.Chance(8) {
 			c.Empty00 = true
